@@ -216,7 +216,10 @@ def _def_by_line(path, fn):
     return cands[0] if len(cands) == 1 else None
 
 
-INTERPRETABLE_PREFIXES = ["/repo/ffcx/", "/verif/contracts/"]
+import os as _os
+
+_HERE = _os.path.dirname(_os.path.dirname(_os.path.abspath(__file__)))
+INTERPRETABLE_PREFIXES = [_os.path.join(_os.environ.get("FFCX_REPO", "/repo"), "ffcx") + "/", _os.path.join(_HERE, "contracts") + "/"]
 
 
 def interpretable(fn):
